@@ -220,7 +220,16 @@ func runCLITargets(c *Ctx, run *ev.Run, prop string, cs cliTargetsCase) {
 		_ = os.WriteFile(bf, cs.DefBody, 0o644)
 		args = append(args, "-body", bf)
 	}
-	cmd := exec.Command(c.Bin("vegeta"), args...)
+	bin := c.Bin("vegeta")
+	raceLog := ""
+	if _, err := os.Stat(c.Bin("vegeta-race")); err == nil && cs.Workers > 1 && cs.Seed%2 == 0 {
+		bin = c.Bin("vegeta-race") // the lazy targeter shared by many workers, in the real binary under the race detector
+		raceLog = filepath.Join(dir, "race")
+	}
+	cmd := exec.Command(bin, args...)
+	if raceLog != "" {
+		cmd.Env = append(os.Environ(), "GORACE=halt_on_error=0 log_path="+raceLog)
+	}
 	var stderr bytes.Buffer
 	cmd.Stderr = &stderr
 	if err := cmd.Start(); err != nil {
@@ -254,6 +263,24 @@ func runCLITargets(c *Ctx, run *ev.Run, prop string, cs cliTargetsCase) {
 			d[k] = v
 		}
 		run.Violate(fmt.Sprintf("%s/cli-%s/%s/%s", prop, clause, cs.Format, mode), fmt.Sprintf("vegeta attack -format %s %s, %d workers, %d targets: %s", cs.Format, mode, cs.Workers, len(cs.Targets), note), d)
+	}
+	if raceLog != "" {
+		run.Count("cli_runs_with_race_built_vegeta", 1)
+		files, _ := filepath.Glob(raceLog + "*")
+		for _, f := range files {
+			data, _ := os.ReadFile(f)
+			for _, blk := range raceSplit.Split(string(data), -1) {
+				if strings.Contains(blk, "WARNING: DATA RACE") {
+					run.Count("race_report_blocks", 1)
+					if inVegeta(blk) {
+						viol("data-race", "race detector report in the real binary at "+raceLocation(blk), map[string]any{"block": blk})
+					}
+				}
+			}
+		}
+		if ee, ok := werr.(*exec.ExitError); ok && ee.ExitCode() == 66 {
+			werr = nil // exit status of the race runtime after reports
+		}
 	}
 	if werr != nil {
 		viol("exit-status", fmt.Sprintf("exit: %v; stderr: %s", werr, tail(stderr.String(), 400)), nil)
